@@ -1411,7 +1411,14 @@ def listcomps_to_loops(trees, inv):
     for mod, t in trees.items():
         for scope, owner, fn in list(scopes(t)):
             q = (scope + "." if scope else "") + fn.name
-            new = genuinely_new_locals(fn, mod, q, inv)
+            new = genuinely_new_locals(fn, mod, q, inv) or set()
+            # also: a local the inventory's version binds to something else (an empty dict / list filled by a loop) and this version
+            # binds to a comprehension
+            was = inv.get("bindings", {}).get(mod, {}).get(q)
+            if was is None:
+                continue
+            cur = local_bindings(fn)
+            new = set(new) | {n for n, b in cur.items() if ("ListComp(" in b[:40] or "DictComp(" in b[:40]) and n in was and was[n] != b}
             if not new:
                 continue
             bound = _bound_names(fn)
@@ -1425,7 +1432,7 @@ def listcomps_to_loops(trees, inv):
                     while i < len(blk):
                         st = blk[i]
                         if isinstance(st, ast.Assign) and len(st.targets) == 1 and isinstance(st.targets[0], ast.Name) and st.targets[0].id in new \
-                                and isinstance(st.value, ast.ListComp) and len(st.value.generators) == 1 and not st.value.generators[0].is_async:
+                                and isinstance(st.value, (ast.ListComp, ast.DictComp)) and len(st.value.generators) == 1 and not st.value.generators[0].is_async:
                             g = st.value.generators[0]
                             tv = [y.id for y in ast.walk(g.target) if isinstance(y, ast.Name)]
                             ren = {}
@@ -1442,14 +1449,20 @@ def listcomps_to_loops(trees, inv):
                             for y in ast.walk(tgt):
                                 if isinstance(y, (ast.Name, ast.Tuple, ast.List)):
                                     y.ctx = ast.Store()
-                            elt = R().visit(copy.deepcopy(st.value.elt))
-                            app = ast.Expr(value=ast.Call(func=ast.Attribute(value=ast.Name(id=st.targets[0].id, ctx=ast.Load()), attr="append", ctx=ast.Load()),
-                                                          args=[elt], keywords=[]))
+                            if isinstance(st.value, ast.ListComp):
+                                elt = R().visit(copy.deepcopy(st.value.elt))
+                                app = ast.Expr(value=ast.Call(func=ast.Attribute(value=ast.Name(id=st.targets[0].id, ctx=ast.Load()), attr="append", ctx=ast.Load()),
+                                                              args=[elt], keywords=[]))
+                                empty = ast.List(elts=[], ctx=ast.Load())
+                            else:
+                                app = ast.Assign(targets=[ast.Subscript(value=ast.Name(id=st.targets[0].id, ctx=ast.Load()), slice=R().visit(copy.deepcopy(st.value.key)),
+                                                                        ctx=ast.Store())], value=R().visit(copy.deepcopy(st.value.value)))
+                                empty = ast.Dict(keys=[], values=[])
                             body = [app]
                             for c in reversed(g.ifs):
                                 body = [ast.If(test=R().visit(copy.deepcopy(c)), body=body, orelse=[])]
                             loop = ast.For(target=tgt, iter=g.iter, body=body, orelse=[])
-                            init = ast.Assign(targets=[ast.Name(id=st.targets[0].id, ctx=ast.Store())], value=ast.List(elts=[], ctx=ast.Load()))
+                            init = ast.Assign(targets=[ast.Name(id=st.targets[0].id, ctx=ast.Store())], value=empty)
                             for nnode in (init, loop):
                                 ast.copy_location(nnode, st)
                                 for y in ast.walk(nnode):
@@ -1462,7 +1475,56 @@ def listcomps_to_loops(trees, inv):
                             continue
                         i += 1
             if done:
-                notes.append("list comprehensions read as loops in %s: %s" % (q, ", ".join(done)))
+                notes.append("comprehensions read as loops in %s: %s" % (q, ", ".join(done)))
+    return notes
+
+
+def next_scans_to_loops(trees, inv):
+    """`r = next((E for T in IT if C), D)` is the first-match scan `r = D; for T in IT: if C: r = E; break`"""
+    notes = []
+    for mod, t in trees.items():
+        for scope, owner, fn in list(scopes(t)):
+            q = (scope + "." if scope else "") + fn.name
+            if "GeneratorExp" in inv.get("functions", {}).get(mod, {}).get(q, ["GeneratorExp"]):
+                continue
+            for blk_owner in list(ast.walk(fn)):
+                for fld in ("body", "orelse", "finalbody"):
+                    blk = getattr(blk_owner, fld, None)
+                    if not (isinstance(blk, list) and blk and isinstance(blk[0], ast.stmt)):
+                        continue
+                    i = 0
+                    while i < len(blk):
+                        st = blk[i]
+                        v = getattr(st, "value", None)
+                        if isinstance(st, ast.Assign) and len(st.targets) == 1 and isinstance(st.targets[0], ast.Name) and isinstance(v, ast.Call) \
+                                and isinstance(v.func, ast.Name) and v.func.id == "next" and len(v.args) == 2 and not v.keywords \
+                                and isinstance(v.args[0], ast.GeneratorExp) and len(v.args[0].generators) == 1 and _effect_free(v.args[1]):
+                            g = v.args[0].generators[0]
+                            r = st.targets[0].id
+                            if r in {y.id for y in ast.walk(v.args[0]) if isinstance(y, ast.Name)}:
+                                i += 1
+                                continue
+                            hit = [ast.Assign(targets=[ast.Name(id=r, ctx=ast.Store())], value=v.args[0].elt), ast.Break()]
+                            body = hit
+                            for c in reversed(g.ifs):
+                                body = [ast.If(test=c, body=body, orelse=[])]
+                            tgt = copy.deepcopy(g.target)
+                            for y in ast.walk(tgt):
+                                if isinstance(y, (ast.Name, ast.Tuple, ast.List)):
+                                    y.ctx = ast.Store()
+                            init = ast.Assign(targets=[ast.Name(id=r, ctx=ast.Store())], value=v.args[1])
+                            loop = ast.For(target=tgt, iter=g.iter, body=body, orelse=[])
+                            for nnode in (init, loop):
+                                ast.copy_location(nnode, st)
+                                for y in ast.walk(nnode):
+                                    if not hasattr(y, "lineno"):
+                                        ast.copy_location(y, st)
+                                ast.fix_missing_locations(nnode)
+                            blk[i:i + 1] = [init, loop]
+                            notes.append("next(...) scan read as a loop in %s" % q)
+                            i += 2
+                            continue
+                        i += 1
     return notes
 
 
@@ -1504,6 +1566,7 @@ def canonicalise(trees, specialise=True):
         # the set of unknown functions shrinks by the renamed ones
         _, news = detect_function_renames(trees, inv)
     notes += listcomps_to_loops(trees, inv)
+    notes += next_scans_to_loops(trees, inv)
     done = inline_new_helpers(trees, inv, news)
     for c, h in done:
         notes.append("inlined new helper %s into %s" % (h, c))
